@@ -95,6 +95,7 @@ type srvState struct {
 	results  []qres
 	cancels  map[int]context.CancelFunc
 	doneQ    map[int]bool
+	notQuiet int
 	qdst     map[int]*net.UDPAddr
 	qt       map[int]string
 	vclock   time.Time
@@ -126,7 +127,9 @@ func (st *srvState) waitQuiet() bool {
 	for {
 		want := st.base + 2*int(atomic.LoadInt64(&st.started)-atomic.LoadInt64(&st.returned))
 		// every started query is either still registered or has returned to the harness
-		settled := int64(len(st.s.VerifPending()))+atomic.LoadInt64(&st.returned) == atomic.LoadInt64(&st.started)
+		var npend int
+		guard("VerifPending", fmt.Sprintf("case=%d scenario=%s", st.c.idx, st.c.cfg.scenario), func() { npend = len(st.s.VerifPending()) })
+		settled := int64(npend)+atomic.LoadInt64(&st.returned) == atomic.LoadInt64(&st.started)
 		if settled && runtime.NumGoroutine() == want {
 			stable++
 			if stable >= 2 {
@@ -143,6 +146,21 @@ func (st *srvState) waitQuiet() bool {
 }
 
 func blString(b *blocklist) string { return b.String() }
+
+// guard runs f (a call that takes the server lock) with a deadline. A call that does not return means
+// the node is wedged: that is a C01 violation; the child process then exits so that the parent can go
+// on with the next case.
+func guard(what string, ctx string, f func()) {
+	done := make(chan struct{})
+	go func() { f(); close(done) }()
+	select {
+	case <-done:
+	case <-time.After(8 * time.Second):
+		oracle("C01", "api-does-not-return:"+what, "%s", ctx)
+		out.Flush()
+		os.Exit(3)
+	}
+}
 
 // a bep44.Store whose Put fails with an ordinary (non-KRPC) error for some items
 type failingStore struct{ *bep44.Memory }
@@ -270,7 +288,8 @@ func (st *srvState) exec(ei int, e *sev) {
 		emit("%s", e.pre)
 	}
 	preSnap := st.prevSnap
-	prePending := st.s.VerifPending()
+	var prePending [][2]string
+	guard("VerifPending", fmt.Sprintf("case=%d ev=%d scenario=%s", c.idx, ei, c.cfg.scenario), func() { prePending = st.s.VerifPending() })
 	var lhs string
 	blockedSrc := false
 	var inMsg *krpc.Msg
@@ -405,6 +424,7 @@ func (st *srvState) exec(ei int, e *sev) {
 	}
 	if !st.waitQuiet() {
 		oracle("C01", "goroutines-not-quiescent", "case=%d ev=%d %s goroutines=%d", c.idx, ei, lhs, runtime.NumGoroutine())
+		st.notQuiet++
 	}
 	// ---- observations
 	writes := st.conn.takeWrites()
@@ -440,9 +460,12 @@ func (st *srvState) exec(ei int, e *sev) {
 			eff = append(eff, fmt.Sprintf("qret:%d:ok:%s", r.qid, r.reply))
 		}
 	}
-	snap, snapStr := st.snapshot()
+	var snap []dht.VerifNode
+	var snapStr string
+	var pend [][2]string
+	gctx := fmt.Sprintf("case=%d ev=%d scenario=%s [%s]", c.idx, ei, c.cfg.scenario, lhs)
+	guard("table-snapshot", gctx, func() { snap, snapStr = st.snapshot(); pend = st.s.VerifPending() })
 	st.prevSnap = snap
-	pend := st.s.VerifPending()
 	var pp []string
 	for _, p := range pend {
 		ip, port := "?", 0
@@ -471,9 +494,10 @@ func (st *srvState) exec(ei int, e *sev) {
 		}
 		lhs += " t=" + hx([]byte(st.qt[e.qid]))
 	}
-	stats := st.s.Stats()
-	nn := st.s.NumNodes()
-	exported := st.s.Nodes()
+	var stats dht.ServerStats
+	var nn int
+	var exported []krpc.NodeInfo
+	guard("Stats/NumNodes/Nodes", gctx, func() { stats = st.s.Stats(); nn = st.s.NumNodes(); exported = st.s.Nodes() })
 	emit("%s => %s | tbl %s | api %d %d %d %d | pend %s", lhs, sortedJoin(eff), snapStr, nn, stats.GoodNodes, len(exported), stats.OutstandingTransactions, sortedJoin(pp))
 
 	// ---- oracles (implementation only)
@@ -1068,6 +1092,11 @@ func runServerCase(c *srvCase) {
 	for i := range c.evs {
 		st.exec(i, &c.evs[i])
 		out.Flush()
+		if st.notQuiet >= 3 {
+			// something keeps running in the background (goroutines the history does not account for):
+			// reported above; do not spend the whole time budget on this case
+			break
+		}
 	}
 	// C01 closing probe: a fresh address pings, the API returns
 	if !st.closed && !cfg.passive && cfg.budget < 0 && !vetoed(cfg.veto, "ping") {
